@@ -38,4 +38,578 @@ def PayloadOkD (c : Ctx) (ver : Nat) : Payload → Prop
   | .deleteAttribute _ _ _ cu _ => ∀ cur, cu = some cur → AttrOkD c cur
   | _ => True
 
+
+/-! ### post-conditions of readers -/
+
+/-- every successful result of `x` satisfies `P` -/
+def DSat {α} (x : D α) (P : α → Prop) : Prop := ∀ a, x = .ok a → P a
+
+/-- every successful result of the reader `m`, on any stream, satisfies `P` -/
+def Sat {α} (m : Rd α) (P : α → Prop) : Prop := ∀ s a s', m s = .ok (a, s') → P a
+
+theorem DSat.triv {α} (x : D α) : DSat x (fun _ => True) := fun _ _ => trivial
+theorem Sat.triv {α} (m : Rd α) : Sat m (fun _ => True) := fun _ _ _ _ => trivial
+
+theorem Sat.weaken {α} {m : Rd α} {P Q : α → Prop} (h : Sat m P) (hpq : ∀ a, P a → Q a) : Sat m Q :=
+  fun s a s' hh => hpq a (h s a s' hh)
+
+theorem Sat.pure {α} {P : α → Prop} {a : α} (h : P a) : Sat (pure a : Rd α) P := by
+  intro s a' s' hh
+  have : (Except.ok (a, s) : D (α × List TItem)) = .ok (a', s') := hh
+  cases this; exact h
+
+theorem Sat.fail {α} {P : α → Prop} (e : DErr) : Sat (Rd.fail e : Rd α) P := by
+  intro s a s' hh
+  have : (Except.error e : D (α × List TItem)) = .ok (a, s') := hh
+  cases this
+
+theorem Sat.bind {α β} {m : Rd α} {f : α → Rd β} {Q : α → Prop} {P : β → Prop}
+    (hm : Sat m Q) (hf : ∀ a, Q a → Sat (f a) P) : Sat (m >>= f) P := by
+  intro s b s' hh
+  have hh' : (match m s with | .ok (a, s1) => f a s1 | .error e => .error e) = .ok (b, s') := hh
+  cases hms : m s with
+  | error e => rw [hms] at hh'; cases hh'
+  | ok p =>
+    obtain ⟨a, s1⟩ := p
+    rw [hms] at hh'
+    exact hf a (hm s a s1 hms) s1 b s' hh'
+
+theorem Sat.ite {α} {P : α → Prop} {c : Prop} [Decidable c] {a b : Rd α}
+    (ha : c → Sat a P) (hb : ¬ c → Sat b P) : Sat (if c then a else b) P := by
+  by_cases h : c
+  · simp only [h, if_true]; exact ha h
+  · simp only [h, if_false]; exact hb h
+
+theorem lift_sat {α} {P : α → Prop} {x : D α} (h : DSat x P) : Sat (Rd.lift x) P := by
+  intro s a s' hh
+  unfold Rd.lift at hh
+  cases x with
+  | error e => cases hh
+  | ok v => cases hh; exact h _ rfl
+
+theorem inStruct_dsat {α} {P : α → Prop} {what : String} {body : Rd α} (h : Sat body P) (i : TItem) :
+    DSat (inStruct what body i) P := by
+  intro a ha
+  cases i with
+  | prim t v => cases ha
+  | struct t kids =>
+    simp only [inStruct] at ha
+    cases hb : body.run kids with
+    | error e => rw [hb] at ha; cases ha
+    | ok p =>
+      obtain ⟨x, r⟩ := p
+      rw [hb] at ha
+      cases ha
+      exact h kids a r hb
+
+theorem req_sat {α} {P : α → Prop} {what : String} {t : Nat} {f : TItem → D α} (h : ∀ i, DSat (f i) P) :
+    Sat (req what t f) P := by
+  intro s a s' hh
+  unfold req at hh
+  cases s with
+  | nil => cases hh
+  | cons i rest =>
+    simp only at hh
+    split at hh
+    · cases hf : f i with
+      | error e => rw [hf] at hh; cases hh
+      | ok v => rw [hf] at hh; cases hh; exact h i a hf
+    · cases hh
+
+theorem opt_sat {α} {P : α → Prop} {t : Nat} {f : TItem → D α} (h : ∀ i, DSat (f i) P) :
+    Sat (opt t f) (fun o => ∀ a, o = some a → P a) := by
+  intro s o s' hh a ho
+  subst ho
+  unfold opt at hh
+  cases s with
+  | nil => cases hh
+  | cons i rest =>
+    simp only at hh
+    split at hh
+    · cases hf : f i with
+      | error e => rw [hf] at hh; cases hh
+      | ok v => rw [hf] at hh; cases hh; exact h i a hf
+    · cases hh
+
+theorem many_sat {α} {P : α → Prop} {t : Nat} {f : TItem → D α} (h : ∀ i, DSat (f i) P) :
+    Sat (many t f) (fun l => ∀ a ∈ l, P a) := by
+  intro s
+  induction s with
+  | nil => intro l s' hh; unfold many at hh; cases hh; intro a ha; cases ha
+  | cons i rest ih =>
+    intro l s' hh
+    unfold many at hh
+    split at hh
+    · cases hf : f i with
+      | error e => rw [hf] at hh; cases hh
+      | ok v =>
+        rw [hf] at hh
+        simp only at hh
+        cases hr : many t f rest with
+        | error e => rw [hr] at hh; cases hh
+        | ok p =>
+          obtain ⟨as, r⟩ := p
+          rw [hr] at hh
+          cases hh
+          intro a ha
+          rcases List.mem_cons.mp ha with rfl | ha
+          · exact h i a hf
+          · exact ih _ _ hr a ha
+    · cases hh; intro a ha; cases ha
+
+theorem mapD_dsat {α β} {P : β → Prop} {f : α → D β} (h : ∀ a, DSat (f a) P) (l : List α) :
+    DSat (mapD f l) (fun bs => ∀ b ∈ bs, P b) := by
+  induction l with
+  | nil => intro bs hb; unfold mapD at hb; cases hb; intro b hb; cases hb
+  | cons a as ih =>
+    intro bs hb
+    unfold mapD at hb
+    cases hf : f a with
+    | error e => rw [hf] at hb; cases hb
+    | ok b =>
+      rw [hf] at hb
+      simp only at hb
+      cases hr : mapD f as with
+      | error e => rw [hr] at hb; cases hb
+      | ok bs' =>
+        rw [hr] at hb
+        cases hb
+        intro x hx
+        rcases List.mem_cons.mp hx with rfl | hx
+        · exact h a x hf
+        · exact ih bs' hr x hx
+
+theorem map_ok {α β} {x : D α} {f : α → β} {b : β} (h : x.map f = .ok b) : ∃ a, x = .ok a ∧ b = f a := by
+  cases x with
+  | error e => cases h
+  | ok a => cases h; exact ⟨a, rfl, rfl⟩
+
+/-- readers whose result the property does not talk about -/
+macro "sat_triv" : tactic =>
+  `(tactic| repeat' (first
+      | exact Sat.fail _
+      | exact Sat.pure trivial
+      | (refine Sat.ite (fun _ => ?_) (fun _ => ?_))
+      | (refine Sat.bind (Sat.triv _) (fun _ _ => ?_))
+      | split))
+
+/-! ### attribute values have the kind their name dictates -/
+
+def specKind : VSpec → Option Kind
+  | .text => some .text
+  | .int => some .int
+  | .interval => some .int
+  | .bool => some .bool
+  | .date => some .date
+  | .enum _ => some .enum
+  | .name => some .name
+  | .appInfo => some .appInfo
+  | .cryptoParams => some .other
+  | .digest => some .other
+  | .notImplemented => none
+
+theorem nameBody_sat : Sat nameBody (fun v => v.kind = .name) := by
+  unfold nameBody
+  refine Sat.bind (Sat.triv _) (fun _ _ => ?_)
+  refine Sat.bind (Sat.triv _) (fun _ _ => ?_)
+  refine Sat.bind (Sat.triv _) (fun _ _ => ?_)
+  exact Sat.pure rfl
+
+theorem appInfoBody_sat : Sat appInfoBody (fun v => v.kind = .appInfo) := by
+  unfold appInfoBody
+  refine Sat.bind (Sat.triv _) (fun _ _ => ?_)
+  refine Sat.bind (Sat.triv _) (fun _ _ => ?_)
+  refine Sat.bind (Sat.triv _) (fun _ _ => ?_)
+  exact Sat.pure rfl
+
+theorem digestBody_sat : Sat digestBody (fun v => v.kind = .other) := by
+  unfold digestBody
+  refine Sat.bind (Sat.triv _) (fun _ _ => ?_)
+  refine Sat.bind (Sat.triv _) (fun _ _ => ?_)
+  refine Sat.bind (Sat.triv _) (fun _ _ => ?_)
+  refine Sat.bind (Sat.triv _) (fun _ _ => ?_)
+  exact Sat.pure rfl
+
+/-- **the value class is chosen from the attribute's name / tag**: what `readValue` returns has the kind of the
+specification it was given -/
+theorem readValue_kind {what : String} {spec : VSpec} {i : TItem} {v : AVal}
+    (h : readValue what spec i = .ok v) : specKind spec = some v.kind := by
+  cases spec <;> simp only [readValue] at h
+  case text => obtain ⟨a, _, rfl⟩ := map_ok h; rfl
+  case int => obtain ⟨a, _, rfl⟩ := map_ok h; rfl
+  case interval => obtain ⟨a, _, rfl⟩ := map_ok h; rfl
+  case bool => obtain ⟨a, _, rfl⟩ := map_ok h; rfl
+  case date => obtain ⟨a, _, rfl⟩ := map_ok h; rfl
+  case «enum» ms => obtain ⟨a, _, rfl⟩ := map_ok h; rfl
+  case name => rw [inStruct_dsat nameBody_sat i v h]; rfl
+  case appInfo => rw [inStruct_dsat appInfoBody_sat i v h]; rfl
+  case cryptoParams => obtain ⟨a, _, rfl⟩ := map_ok h; rfl
+  case digest => rw [inStruct_dsat digestBody_sat i v h]; rfl
+  case notImplemented => cases h
+
+/-! ### table obligations (re-evaluated on every build; `Gen.attrRules` is regenerated from /repo) -/
+
+/-- every attribute name the engine looks into gets, from the 1.x factory, a value class of the kind the engine expects -/
+def inspectedByNameCheck : Bool :=
+  inspected.all (fun p => match specOfName p.1 with | .ok s => specKind s == some p.2 | .error _ => true)
+
+theorem inspected_by_name : inspectedByNameCheck = true := by decide +kernel
+
+/-- a name of the rule table whose value class is a structure the engine does not look into is multivalued -/
+def otherByNameCheck : Bool :=
+  Gen.attrRules.all (fun r => match specOfName r.name with
+    | .ok s => specKind s != some Kind.other || r.multivalued
+    | .error _ => true)
+
+theorem other_by_name : otherByNameCheck = true := by decide +kernel
+
+def nameSpecB (n : String) (s : VSpec) : Bool :=
+  (match inspected.lookup n with | some k => specKind s == some k | none => true) &&
+  (specKind s != some Kind.other || Gen.attrRules.all (fun r => r.name != n || r.multivalued))
+
+/-- the same two facts for the KMIP 2.0 factory (by tag), under the name the tag converts to -/
+def byTagCheck : Bool :=
+  valueByTag.all (fun p => match nameOfTag p.1 with | some n => nameSpecB n p.2 | none => true)
+
+theorem by_tag : byTagCheck = true := by decide +kernel
+
+theorem lookup_mem {α β} [BEq α] [LawfulBEq α] (l : List (α × β)) (k : α) (v : β)
+    (h : l.lookup k = some v) : (k, v) ∈ l := by
+  induction l with
+  | nil => simp at h
+  | cons p ps ih =>
+    obtain ⟨a, b⟩ := p
+    simp only [List.lookup] at h
+    split at h
+    · rename_i heq
+      simp only [beq_iff_eq] at heq
+      simp only [Option.some.injEq] at h
+      subst heq; subst h; exact List.mem_cons_self
+    · exact List.mem_cons_of_mem _ (ih h)
+
+/-- a context whose rule table is the real one -/
+def RealRules (c : Ctx) : Prop := c.rules = Gen.attrRules
+
+theorem rule_mem {c : Ctx} (hc : RealRules c) {name : String} {r : AttrRule} (h : c.rule? name = some r) :
+    r ∈ Gen.attrRules ∧ r.name = name := by
+  unfold Ctx.rule? at h
+  rw [hc] at h
+  refine ⟨List.mem_of_find?_eq_some h, ?_⟩
+  have := List.find?_some h
+  simpa using this
+
+theorem valOkD_by_name {c : Ctx} (hc : RealRules c) {name : String} {spec : VSpec} {v : AVal}
+    (hs : specOfName name = .ok spec) (hv : specKind spec = some v.kind) : ValOkD c name v := by
+  refine ⟨?_, ?_⟩
+  · intro k hk
+    have hm := lookup_mem _ _ _ hk
+    have := List.all_eq_true.mp inspected_by_name (name, k) hm
+    simp only [hs, hv, beq_iff_eq, Option.some.injEq] at this
+    exact this
+  · intro hvo r hr
+    obtain ⟨hmem, hname⟩ := rule_mem hc hr
+    have := List.all_eq_true.mp other_by_name r hmem
+    rw [hname, hs] at this
+    subst hvo
+    simp only [hv, AVal.kind, bne_self_eq_false, Bool.false_or] at this
+    exact this
+
+theorem valOkD_by_tag {c : Ctx} (hc : RealRules c) {t : Nat} {name : String} {spec : VSpec} {v : AVal}
+    (hs : valueByTag.lookup t = some spec) (hn : nameOfTag t = some name) (hv : specKind spec = some v.kind) :
+    ValOkD c name v := by
+  have hm := lookup_mem _ _ _ hs
+  have hb := List.all_eq_true.mp by_tag (t, spec) hm
+  simp only [hn, nameSpecB, Bool.and_eq_true] at hb
+  obtain ⟨h1, h2⟩ := hb
+  refine ⟨?_, ?_⟩
+  · intro k hk
+    rw [hk] at h1
+    simp only [hv, beq_iff_eq, Option.some.injEq] at h1
+    exact h1
+  · intro hvo r hr
+    obtain ⟨hmem, hname⟩ := rule_mem hc hr
+    subst hvo
+    simp only [hv, AVal.kind, bne_self_eq_false, Bool.false_or] at h2
+    have := List.all_eq_true.mp h2 r hmem
+    simp only [hname, bne_self_eq_false, Bool.false_or] at this
+    exact this
+
+/-! ### attributes, templates -/
+
+theorem attribute1x_ok {c : Ctx} (hc : RealRules c) (i : TItem) : DSat (attribute1x i) (AttrOkD c) := by
+  unfold attribute1x
+  refine inStruct_dsat ?_ i
+  unfold attributeBody
+  refine Sat.bind (Sat.triv _) (fun name _ => ?_)
+  refine Sat.bind (Sat.triv _) (fun index _ => ?_)
+  refine Sat.bind (lift_sat (P := fun spec => specOfName name = .ok spec) (fun a h => h)) (fun spec hs => ?_)
+  refine Sat.bind (req_sat (P := fun v => specKind spec = some v.kind) (fun i v h => readValue_kind h)) (fun v hv => ?_)
+  refine Sat.bind (Sat.triv _) (fun _ _ => ?_)
+  exact Sat.pure (valOkD_by_name hc hs hv)
+
+theorem attrByTag_ok {c : Ctx} (hc : RealRules c) (i : TItem) : DSat (attrByTag i) (AttrOkD c) := by
+  intro a ha
+  unfold attrByTag at ha
+  simp only at ha
+  split at ha
+  · cases ha
+  · split at ha
+    · cases ha
+    · split at ha
+      · rename_i spec name hs hn
+        obtain ⟨v, hv, rfl⟩ := map_ok ha
+        exact valOkD_by_tag hc hs hn (readValue_kind hv)
+      · cases ha
+
+theorem attributes20_ok {c : Ctx} (hc : RealRules c) (what : String) (i : TItem) :
+    DSat (attributes20 what i) (fun as => ∀ a ∈ as, AttrOkD c a) := by
+  intro as h
+  cases i with
+  | prim t v => cases h
+  | struct t kids => exact mapD_dsat (attrByTag_ok hc) kids as h
+
+theorem attrHolder_ok {c : Ctx} (hc : RealRules c) (what : String) (i : TItem) : DSat (attrHolder what i) (AttrOkD c) := by
+  unfold attrHolder
+  refine inStruct_dsat ?_ i
+  intro s a s' hh
+  unfold attrHolderBody at hh
+  cases s with
+  | nil => cases hh
+  | cons x rest =>
+    simp only at hh
+    cases hx : attrByTag x with
+    | error e => rw [hx] at hh; cases hh
+    | ok v =>
+      rw [hx] at hh
+      simp only at hh
+      split at hh
+      · cases hh; exact attrByTag_ok hc x a hx
+      · cases hh
+
+def TmplOk (c : Ctx) (t : Template) : Prop := ∀ a ∈ t.attrs, AttrOkD c a
+
+theorem template1x_ok {c : Ctx} (hc : RealRules c) (i : TItem) : DSat (template1x i) (TmplOk c) := by
+  unfold template1x
+  refine inStruct_dsat ?_ i
+  unfold templateBody
+  refine Sat.bind (Sat.triv _) (fun names _ => ?_)
+  refine Sat.bind (many_sat (attribute1x_ok hc)) (fun attrs ha => ?_)
+  refine Sat.bind (Sat.triv _) (fun _ _ => ?_)
+  exact Sat.pure ha
+
+theorem template20_ok {c : Ctx} (hc : RealRules c) (what : String) (i : TItem) : DSat (template20 what i) (TmplOk c) := by
+  intro t h
+  obtain ⟨as, has, rfl⟩ := map_ok h
+  exact attributes20_ok hc what i as has
+
+theorem reqTemplate_sat {c : Ctx} (hc : RealRules c) (v : Nat) : Sat (reqTemplate v) (TmplOk c) := by
+  unfold reqTemplate
+  split
+  · exact req_sat (template1x_ok hc)
+  · exact req_sat (template20_ok hc _)
+
+theorem optTemplate_sat {c : Ctx} (hc : RealRules c) (v t1 t2 : Nat) : Sat (optTemplate v t1 t2) (TemplateOkD c) := by
+  unfold optTemplate
+  split
+  · refine Sat.weaken (opt_sat (template1x_ok hc)) ?_
+    intro o ho; cases o with
+    | none => trivial
+    | some t => exact ho t rfl
+  · refine Sat.weaken (opt_sat (template20_ok hc _)) ?_
+    intro o ho; cases o with
+    | none => trivial
+    | some t => exact ho t rfl
+
+/-! ### payloads -/
+
+theorem createBody_sat {c : Ctx} (hc : RealRules c) (v : Nat) : Sat (createBody v) (PayloadOkD c v) := by
+  unfold createBody
+  refine Sat.bind (Sat.triv _) (fun ot _ => ?_)
+  refine Sat.bind (reqTemplate_sat hc v) (fun t ht => ?_)
+  refine Sat.bind (Sat.triv _) (fun _ _ => ?_)
+  refine Sat.bind (Sat.triv _) (fun _ _ => ?_)
+  exact Sat.pure ht
+
+theorem createKeyPairBody_sat {c : Ctx} (hc : RealRules c) (v : Nat) : Sat (createKeyPairBody v) (PayloadOkD c v) := by
+  unfold createKeyPairBody
+  refine Sat.bind (optTemplate_sat hc v _ _) (fun cm hcm => ?_)
+  refine Sat.bind (optTemplate_sat hc v _ _) (fun pr hpr => ?_)
+  refine Sat.bind (optTemplate_sat hc v _ _) (fun pu hpu => ?_)
+  refine Sat.bind (Sat.triv _) (fun _ _ => ?_)
+  refine Sat.bind (Sat.triv _) (fun _ _ => ?_)
+  refine Sat.bind (Sat.triv _) (fun _ _ => ?_)
+  refine Sat.bind (Sat.triv _) (fun _ _ => ?_)
+  exact Sat.pure ⟨hcm, hpr, hpu⟩
+
+theorem registerBody_sat {c : Ctx} (hc : RealRules c) (v : Nat) : Sat (registerBody v) (PayloadOkD c v) := by
+  unfold registerBody
+  refine Sat.bind (Sat.triv _) (fun ot _ => ?_)
+  refine Sat.bind (reqTemplate_sat hc v) (fun t ht => ?_)
+  split
+  · exact Sat.fail _
+  · refine Sat.bind (Sat.triv _) (fun _ _ => ?_)
+    refine Sat.bind (Sat.triv _) (fun _ _ => ?_)
+    refine Sat.bind (Sat.triv _) (fun _ _ => ?_)
+    exact Sat.pure ht
+
+theorem deriveKeyBody_sat {c : Ctx} (hc : RealRules c) (v : Nat) : Sat (deriveKeyBody v) (PayloadOkD c v) := by
+  unfold deriveKeyBody
+  refine Sat.bind (Sat.triv _) (fun ot _ => ?_)
+  refine Sat.bind (Sat.triv _) (fun us _ => ?_)
+  refine Sat.ite (fun _ => Sat.fail _) (fun hus => ?_)
+  refine Sat.bind (Sat.triv _) (fun _ _ => ?_)
+  refine Sat.bind (Sat.triv _) (fun d _ => ?_)
+  refine Sat.bind (reqTemplate_sat hc v) (fun t ht => ?_)
+  refine Sat.bind (Sat.triv _) (fun _ _ => ?_)
+  refine Sat.pure ⟨ht, ?_⟩
+  intro h; subst h; exact hus rfl
+
+theorem locateBody_sat {c : Ctx} (hc : RealRules c) (v : Nat) : Sat (locateBody v) (PayloadOkD c v) := by
+  unfold locateBody
+  refine Sat.bind (Sat.triv _) (fun mx _ => ?_)
+  refine Sat.bind (Sat.triv _) (fun off _ => ?_)
+  refine Sat.bind (Sat.triv _) (fun _ _ => ?_)
+  refine Sat.bind (Sat.triv _) (fun _ _ => ?_)
+  refine Sat.ite (fun _ => ?_) (fun _ => ?_)
+  · refine Sat.bind (many_sat (attribute1x_ok hc)) (fun as has => ?_)
+    exact Sat.pure has
+  · refine Sat.bind (opt_sat (attributes20_ok hc _)) (fun as has => ?_)
+    refine Sat.pure ?_
+    cases as with
+    | none => intro a ha; cases ha
+    | some l => exact has l rfl
+
+theorem queryBody_sat (c : Ctx) (v : Nat) : Sat queryBody (PayloadOkD c v) := by
+  unfold queryBody
+  refine Sat.bind (Sat.triv _) (fun fs _ => ?_)
+  refine Sat.ite (fun _ => Sat.fail _) (fun hfs => ?_)
+  refine Sat.bind (Sat.triv _) (fun _ _ => ?_)
+  refine Sat.pure ?_
+  intro h; subst h; exact hfs rfl
+
+theorem setAttributeBody_sat {c : Ctx} (hc : RealRules c) (v : Nat) : Sat (setAttributeBody v) (PayloadOkD c v) := by
+  unfold setAttributeBody
+  refine Sat.ite (fun _ => Sat.fail _) (fun _ => ?_)
+  refine Sat.bind (Sat.triv _) (fun u _ => ?_)
+  refine Sat.bind (req_sat (attrHolder_ok hc _)) (fun a ha => ?_)
+  refine Sat.bind (Sat.triv _) (fun _ _ => ?_)
+  exact Sat.pure ha
+
+theorem modifyAttributeBody_sat {c : Ctx} (hc : RealRules c) (v : Nat) : Sat (modifyAttributeBody v) (PayloadOkD c v) := by
+  unfold modifyAttributeBody
+  refine Sat.bind (Sat.triv _) (fun u _ => ?_)
+  refine Sat.ite (fun hv => ?_) (fun hv => ?_)
+  · refine Sat.bind (req_sat (attribute1x_ok hc)) (fun a ha => ?_)
+    refine Sat.bind (Sat.triv _) (fun _ _ => ?_)
+    refine Sat.pure ⟨fun h => ?_, fun _ => ⟨a, rfl, ha⟩, fun cur h => ?_⟩
+    · exact absurd h (by omega)
+    · cases h
+  · refine Sat.bind (opt_sat (attrHolder_ok hc _)) (fun cu hcu => ?_)
+    refine Sat.bind (req_sat (attrHolder_ok hc _)) (fun nw hnw => ?_)
+    refine Sat.bind (Sat.triv _) (fun _ _ => ?_)
+    refine Sat.pure ⟨fun _ => ⟨nw, rfl, hnw⟩, fun h => ?_, fun cur h => hcu cur h⟩
+    exact absurd (by omega : v ≥ 20) h
+
+theorem deleteAttributeBody_sat {c : Ctx} (hc : RealRules c) (v : Nat) : Sat (deleteAttributeBody v) (PayloadOkD c v) := by
+  unfold deleteAttributeBody
+  refine Sat.bind (Sat.triv _) (fun u _ => ?_)
+  refine Sat.ite (fun _ => ?_) (fun _ => ?_)
+  · refine Sat.bind (Sat.triv _) (fun _ _ => ?_)
+    refine Sat.bind (Sat.triv _) (fun _ _ => ?_)
+    refine Sat.bind (Sat.triv _) (fun _ _ => ?_)
+    refine Sat.pure ?_
+    intro cur h; cases h
+  · refine Sat.bind (opt_sat (attrHolder_ok hc _)) (fun cu hcu => ?_)
+    refine Sat.bind (Sat.triv _) (fun r _ => ?_)
+    refine Sat.ite (fun _ => Sat.fail _) (fun _ => ?_)
+    refine Sat.bind (Sat.triv _) (fun _ _ => ?_)
+    exact Sat.pure (fun cur h => hcu cur h)
+
+/-- **every payload the decoder returns satisfies the decoder's part of well-typedness** -/
+theorem payloadBody_sat {c : Ctx} (hc : RealRules c) (op v : Nat) : Sat (payloadBody op v) (PayloadOkD c v) := by
+  unfold payloadBody
+  refine Sat.ite (fun _ => createBody_sat hc v) (fun _ => ?_)
+  refine Sat.ite (fun _ => createKeyPairBody_sat hc v) (fun _ => ?_)
+  refine Sat.ite (fun _ => registerBody_sat hc v) (fun _ => ?_)
+  refine Sat.ite (fun _ => deriveKeyBody_sat hc v) (fun _ => ?_)
+  refine Sat.ite (fun _ => locateBody_sat hc v) (fun _ => ?_)
+  refine Sat.ite (fun _ => by unfold getBody; sat_triv) (fun _ => ?_)
+  refine Sat.ite (fun _ => by unfold getAttributesBody; sat_triv) (fun _ => ?_)
+  refine Sat.ite (fun _ => by unfold getAttributeListBody; sat_triv) (fun _ => ?_)
+  refine Sat.ite (fun _ => by unfold activateBody; sat_triv) (fun _ => ?_)
+  refine Sat.ite (fun _ => by unfold revokeBody; sat_triv) (fun _ => ?_)
+  refine Sat.ite (fun _ => by unfold destroyBody; sat_triv) (fun _ => ?_)
+  refine Sat.ite (fun _ => queryBody_sat c v) (fun _ => ?_)
+  refine Sat.ite (fun _ => by unfold discoverVersionsBody; sat_triv) (fun _ => ?_)
+  refine Sat.ite (fun _ => by unfold encryptBody; sat_triv) (fun _ => ?_)
+  refine Sat.ite (fun _ => by unfold decryptBody; sat_triv) (fun _ => ?_)
+  refine Sat.ite (fun _ => by unfold signBody; sat_triv) (fun _ => ?_)
+  refine Sat.ite (fun _ => by unfold signatureVerifyBody; sat_triv) (fun _ => ?_)
+  refine Sat.ite (fun _ => by unfold macBody; sat_triv) (fun _ => ?_)
+  refine Sat.ite (fun _ => setAttributeBody_sat hc v) (fun _ => ?_)
+  refine Sat.ite (fun _ => modifyAttributeBody_sat hc v) (fun _ => ?_)
+  refine Sat.ite (fun _ => deleteAttributeBody_sat hc v) (fun _ => ?_)
+  refine Sat.ite (fun _ => Sat.fail _) (fun _ => Sat.fail _)
+
+/-! ### batch items and the message -/
+
+/-- an item is only ever decoded under a known version, and its payload is then well typed for that version -/
+def ItemOkD (c : Ctx) (ver : Option Nat) (it : Kmip.Item) : Prop := ∃ v, ver = some v ∧ 10 ≤ v ∧ PayloadOkD c v it.payload
+
+theorem batchItemBody_sat {c : Ctx} (hc : RealRules c) (ver : Option Nat) (hver : ∀ v, ver = some v → 10 ≤ v) :
+    Sat (batchItemBody ver) (ItemOkD c ver) := by
+  unfold batchItemBody
+  refine Sat.bind (Sat.triv _) (fun op _ => ?_)
+  split
+  · exact Sat.fail _
+  · rename_i v
+    refine Sat.ite (fun _ => ?_) (fun _ => ?_)
+    · refine Sat.bind (Sat.triv _) (fun _ _ => ?_)
+      refine Sat.bind (Sat.triv _) (fun bid _ => ?_)
+      refine Sat.bind (req_sat (fun i => inStruct_dsat (payloadBody_sat hc op v) i)) (fun p hp => ?_)
+      refine Sat.bind (Sat.triv _) (fun _ _ => ?_)
+      refine Sat.bind (Sat.triv _) (fun _ _ => ?_)
+      refine Sat.bind (Sat.triv _) (fun b _ => ?_)
+      exact Sat.pure ⟨v, rfl, hver v rfl, hp⟩
+    · refine Sat.bind (Sat.triv _) (fun bid _ => ?_)
+      refine Sat.bind (req_sat (fun i => inStruct_dsat (payloadBody_sat hc op v) i)) (fun p hp => ?_)
+      refine Sat.bind (Sat.triv _) (fun _ _ => ?_)
+      refine Sat.bind (Sat.triv _) (fun _ _ => ?_)
+      refine Sat.bind (Sat.triv _) (fun b _ => ?_)
+      exact Sat.pure ⟨v, rfl, hver v rfl, hp⟩
+
+theorem takeItems_ok {c : Ctx} (hc : RealRules c) (ver : Option Nat) (hver : ∀ v, ver = some v → 10 ≤ v) :
+    ∀ (n : Nat) (l : List TItem) (items : List Kmip.Item), takeItems ver n l = .ok items →
+      ∀ it ∈ items, ItemOkD c ver it := by
+  intro n
+  induction n with
+  | zero => intro l items h; unfold takeItems at h; cases h; intro it hit; cases hit
+  | succ n ih =>
+    intro l items h
+    cases l with
+    | nil => unfold takeItems at h; cases h
+    | cons i rest =>
+      unfold takeItems at h
+      split at h
+      · cases hb : batchItem ver i with
+        | error e => rw [hb] at h; cases h
+        | ok x =>
+          rw [hb] at h
+          simp only at h
+          cases hr : takeItems ver n rest with
+          | error e => rw [hr] at h; cases h
+          | ok xs =>
+            rw [hr] at h
+            cases h
+            intro it hit
+            rcases List.mem_cons.mp hit with rfl | hit
+            · exact inStruct_dsat (batchItemBody_sat hc ver hver) i it hb
+            · exact ih rest xs hr it hit
+      · cases h
+
+theorem kmipVersion_ge (p : Int × Int) (v : Nat) (h : kmipVersion p = some v) : 10 ≤ v := by
+  unfold kmipVersion at h
+  repeat' (split at h)
+  all_goals first | (cases h; omega) | cases h
+
 end Kmip.Decode
